@@ -40,7 +40,7 @@ LAYOUTS_Y = ["arrays", "lists", "series"]
 
 
 def cases(tier, seed):
-    n = 6 if tier == "quick" else 50
+    n = 6 if tier == "quick" else 150
     out = []
     for name in zoo.ALL:
         lays = LAYOUTS_Y if zoo.kind(name) == "y" else LAYOUTS_X
